@@ -123,7 +123,7 @@ class pdb2sql_base(object):
 
     def update_xyz(self, xyz, tablename='atom',  **kwargs):
         """Update the xyz coordinates."""
-        self.update('x,y,z', xyz, **kwargs)
+        self.update('x,y,z', xyz, tablename=tablename, **kwargs)
 
     def update_column(self, colname, values, index=None):
         """Update a single column."""
